@@ -20,7 +20,8 @@ namespace net {
 constexpr int kFdBase = 100;
 constexpr int kIfEth = 2, kIfCanA = 3, kIfCanB = 4;
 
-struct Frame {  // a datagram in flight / queued
+struct Frame {
+    int src_fd = -1;  // the sending socket (for ICMP port-unreachable to connected UDP sockets)  // a datagram in flight / queued
     std::vector<uint8_t> data;
     bool udp = false;
     uint16_t proto = 0;  // ethertype (packet) or destination port (udp)
@@ -54,6 +55,8 @@ struct FdEnt {
     bool canfd_enabled = false;
     std::vector<struct sock_filter> bpf;  // SO_ATTACH_FILTER: classic BPF program run on every datagram before it is queued
     std::vector<uint8_t> cork;    // UDP: data sent with MSG_MORE waits here for the send that completes the datagram
+    bool connected = false;      // UDP: connect() was called - ICMP errors for what this socket sent are reported to it
+    int pending_err = 0;         // ... as the error of its next send or receive
     size_t rcvbuf_bytes = 0;   // SO_RCVBUF as the kernel keeps it (twice the value asked for, at least 2304); 0 = the system default
     bool pmtudisc_do = false;  // IP_MTU_DISCOVER = IP_PMTUDISC_DO/PROBE: datagrams above the path MTU are refused instead of fragmented
     int bus = -1;
